@@ -74,7 +74,7 @@ class C06(Sim):
             "non-trivial = >= 2 meshes alive and >= 2 transform/edit calls")
     FAULT_KINDS = ["aliasing_schedule", "reject"]
     PROBES = ["merge_same_twice", "merge_result_edited", "copy_edited", "source_edited_after_copy", "open_ring", "boundary_producer",
-              "subdivision_producer", "int_coordinates", "inverse_pair", "flatten", "normalize", "load_producer", "inplace_edit", "copy_connectivity", "elem_edit", "cloud_in_merge", "copy_of_warm_source", "attribute_attached", "attr_edit", "class_wider_than_content", "orig_is_a_vertex", "hex_cells", "vector_attribute_edit", "corner_attribute_copied"]
+              "subdivision_producer", "int_coordinates", "inverse_pair", "flatten", "normalize", "load_producer", "inplace_edit", "copy_connectivity", "elem_edit", "cloud_in_merge", "copy_of_warm_source", "attribute_attached", "attr_edit", "class_wider_than_content", "orig_is_a_vertex", "hex_cells", "vector_attribute_edit", "corner_attribute_copied", "rotation_arg_reused"]
     QUICK_RUNS = 3000
     THOROUGH_RUNS = 300000
     BLOCK = 25
@@ -106,6 +106,7 @@ class C06(Sim):
         self.kinds = []
         self.producers = []
         self.ntrans = 0
+        self.rot_objs = {}  # (client, form) -> the client's own mutable rotation argument, overwritten in place before each use
 
     def close(self):
         self.fs.uninstall()
@@ -379,6 +380,8 @@ class C06(Sim):
             ev["form"] = r.choice(["matrix", "euler", "euler_tuple", "rotation"])
             ev["angles"] = [round(r.uniform(-3, 3), 3) for _ in range(3)]
             ev["orig"] = self._vec(r, -2, 2) if r.chance(0.5) else None
+            # the client keeps ONE mutable argument object (its list of angles / its 3x3 array) and overwrites it in place before each call
+            ev["own_obj"] = r.chance(0.5)
         elif op == "scale":
             ev["s"] = r.choice([0.5, 2.0, -1.5, 0.1, 3.0, 0.25])
             ev["orig"] = self._vec(r, -2, 2) if r.chance(0.5) else None
@@ -399,6 +402,8 @@ class C06(Sim):
             ev["s"] = r.choice([0.5, 2.0, 4.0, 0.125, -2.0])
             # the fixed point, when given, is ONE caller object handed to both calls
             ev["orig"] = self._vec(r, -2, 2) if ev["kind"] != "translate" and r.chance(0.5) else None
+            # rotate: the inverse is given through the SAME caller object (matrix transposed in place / angles list overwritten)
+            ev["same_obj"] = r.choice([None, None, "matrix", "euler"]) if ev["kind"] == "rotate" else None
         elif op == "bad_call":
             ev["what"] = r.choice(["rotate_two_angles", "rotate_bad_matrix", "translate_2d", "rotate_string"])
         elif op == "elem_edit":
@@ -623,6 +628,14 @@ class C06(Sim):
             R = rot_matrix("euler", ev["angles"])
             from scipy.spatial.transform import Rotation
             arg = {"matrix": np.array(R), "euler": list(ev["angles"]), "euler_tuple": tuple(ev["angles"]), "rotation": Rotation.from_euler("xyz", ev["angles"])}[ev["form"]]
+            if ev.get("own_obj") and ev["form"] in ("matrix", "euler"):
+                key = (ev["c"], ev["form"])
+                if key in self.rot_objs:
+                    self.probes["rotation_arg_reused"] += 1
+                    self.rot_objs[key][:] = arg
+                else:
+                    self.rot_objs[key] = arg
+                arg = self.rot_objs[key]
             orig = None if ev["orig"] is None else V(ev["orig"])
             o = call(T.rotate, mesh, arg, orig)
             og = np.zeros(3) if ev["orig"] is None else np.array(ev["orig"])
@@ -678,7 +691,31 @@ class C06(Sim):
             elif kind == "rotate":
                 R = rot_matrix("euler", ev["angles"])
                 c0 = None if ev.get("orig") is None else V(ev["orig"])
-                o = call(lambda: T.rotate(T.rotate(mesh, np.array(R), c0), np.array(R.T), c0))
+                if ev.get("same_obj") == "matrix":
+                    self.probes["rotation_arg_reused"] += 1
+                    Mx = np.array(R)
+
+                    def pair():
+                        T.rotate(mesh, Mx, c0)
+                        Mx[:] = R.T
+                        return T.rotate(mesh, Mx, c0)
+                    o = call(pair)
+                elif ev.get("same_obj") == "euler":
+                    # rotate(xyz-Euler a) = Rz(c) Ry(b) Rx(a) about fixed axes; undone by three single-axis calls through one list
+                    self.probes["rotation_arg_reused"] += 1
+                    a3 = list(ev["angles"])
+                    R = rot_matrix("euler", a3)
+
+                    def pair():
+                        ang = list(a3)
+                        T.rotate(mesh, ang, c0)
+                        for k_ in (2, 1, 0):
+                            ang[:] = [-a3[q] if q == k_ else 0.0 for q in range(3)]
+                            T.rotate(mesh, ang, c0)
+                        return mesh
+                    o = call(pair)
+                else:
+                    o = call(lambda: T.rotate(T.rotate(mesh, np.array(R), c0), np.array(R.T), c0))
             else:
                 c0 = None if ev.get("orig") is None else V(ev["orig"])
                 o = call(lambda: T.scale(T.scale(mesh, ev["s"], c0), 1.0 / ev["s"], c0))
